@@ -108,6 +108,13 @@ impl Property for C10 {
     fn max_shrink_iters(&self) -> u32 {
         400
     }
+    /// coverage-guided phase: runs per job, set by what one case costs under instrumentation
+    fn fuzz_runs(&self, tier: Tier) -> u64 {
+        match tier {
+            Tier::Quick => 0,
+            Tier::Thorough => 500,
+        }
+    }
     fn cases(&self, tier: Tier) -> u64 {
         match tier {
             Tier::Quick => 1600,
